@@ -105,7 +105,7 @@ def run(res, tier, seed):
 
     # ---- D
     # configuration sets about candidate lists have no literals, local answers or second families
-    NAMES_ONLY = ("AnswerLiteral", "AnswerLocally", "FallbackFamily")
+    NAMES_ONLY = ("AnswerLiteral", "AnswerHostsAsTyped", "AnswerLocally", "FallbackFamily")
     runs = [("MC_Stub", os.path.join(vlib.SPEC, "MC_Stub.cfg"), ()),
             ("MC_Stub_names", os.path.join(vlib.SPEC, "MC_Stub_names.cfg"), NAMES_ONLY),
             ("MC_Stub_live", os.path.join(vlib.SPEC, "MC_Stub_live.cfg"), ())]
@@ -113,7 +113,7 @@ def run(res, tier, seed):
         runs.append(("MC_Stub_namesBig", write_cfg(wd, "MC_Stub_namesBig", cfgs="MC_CfgsNamesBig", outcomes="AllOutcomes",
                                                    rules="Strict", tail=INVS), NAMES_ONLY))
         runs.append(("MC_Stub_strategyBig", write_cfg(wd, "MC_Stub_strategyBig", cfgs="MC_CfgsStrategyBig", outcomes="AllOutcomes",
-                                                      rules="Strict", tail=INVS), ("AnswerLiteral", "AnswerLocally")))
+                                                      rules="Strict", tail=INVS), ("AnswerLiteral", "AnswerHostsAsTyped", "AnswerLocally")))
         runs.append(("MC_Stub_hostsBig", write_cfg(wd, "MC_Stub_hostsBig", cfgs="MC_CfgsHostsBig", outcomes="AllOutcomes",
                                                    rules="Strict", tail=INVS), ("AnswerLiteral",)))
     for name, cfg, az in runs:
@@ -147,7 +147,7 @@ def run(res, tier, seed):
     stats = {"ok": 0, "err": 0, "local_only": 0, "fallback_family": 0, "later_candidate_won": 0, "agree": 0}
     for gname, cfgs, outcomes, fks in gens:
         tla, _ = vlib.wrapper(wd, gname, "Gen_Stub, MC_Stub", {}, [])
-        cfg = write_cfg(wd, gname, cfgs=cfgs, outcomes=outcomes, rules="Strict", tail="INVARIANT Emit\nACTION_CONSTRAINT PerCandidateReading")
+        cfg = write_cfg(wd, gname, cfgs=cfgs, outcomes=outcomes, rules="Strict", tail="INVARIANT Emit")
         cases, st = vlib.gen(tla, cfg, wd, workers=W, timeout=1500)
         res.states += st["distinct"]
         res.transitions += st["generated"]
